@@ -239,7 +239,7 @@ func (s *session) opLine() string {
 					genuine = stateEq(ps, st)
 				}
 			}
-			cp = fmt.Sprintf("%d.%d%d%d%d", id, b2i(isV2), b2i(one), b2i(commit), b2i(genuine))
+			cp = fmt.Sprintf("%d.%d%d%d%d%d", id, b2i(isV2), b2i(one), b2i(commit), b2i(genuine), b2i(len(b.Transactions) == 0))
 		}
 		blocks := "-"
 		if bl.blAsked && !bl.bl.fail && bl.bl.raw == nil {
